@@ -45,6 +45,9 @@ func Unroll(pkgs []*packages.Package, module string) *Result {
 				if !ok || fd.Body == nil {
 					continue
 				}
+				if Unchanged(strings.TrimPrefix(strings.TrimPrefix(p.PkgPath, module), "/"), fd) {
+					continue // as on the reference tree: left as written
+				}
 				pl.curFile, pl.curFunc = f, FuncKey(fd)
 				u := &unroller{pl: pl, fn: fd}
 				if u.run() {
